@@ -2,6 +2,7 @@
   C03 — Unconsumed arguments are conserved, in order.
 -/
 import GoFlags.Lemmas.ParseBasics
+import GoFlags.Props.C10
 
 namespace GoFlags.C03
 open GoFlags Bytes
@@ -118,4 +119,32 @@ theorem dispatch_passes_retargs (s : PS) (ev : Event) (h : ev ∈ (dispatch s).2
 example : (Handler.none).shrinks = true := rfl
 example : (Handler.dropNext).shrinks = true := rfl
 
+
+/-! ### Whole command lines: exactly the unconsumed words remain -/
+
+
+/-- **The remaining arguments are exactly the unconsumed tokens, in order — whole command lines.**
+    For a command line of any length that mixes option occurrences and plain words in any order
+    (no positional field pending, no subcommands), the parser ends with exactly the plain words, in
+    their order, appended to what it held: every option token is consumed, no word is dropped,
+    duplicated, altered or moved. -/
+theorem remaining_are_exactly_the_words (E : Env) (help : HelpFn) (items : List Item) (fuel : Nat) (s : PS)
+    (hf : items.length < fuel) (hargs : s.args = renderItems items) (hok : ItemsOK s items)
+    (hres : (applyItems E help s items).2 = none) (hq : s.positional = []) :
+    (parseLoop E help fuel s).retargs = s.retargs ++ wordsOf items := by
+  obtain ⟨_, _, h, _⟩ := C10.interleaved_options_do_not_disturb_binding E help items fuel s hf hargs hok hres
+  rw [h, C10.extra_words_remain E s _ hq]
+
+
+/-! non-vacuity: the command line `a --v b` on a parser with one flag `--v` meets every hypothesis
+    of the two whole-command-line theorems -/
+def exFlagP : Parser := { cmds := [{ groups := [{ opts := [{ long := B "v", ty := .sc .bool }] }] }] }
+def exItems : List Item := [.word (B "a"), .occ (B "v", none), .word (B "b")]
+def exS : PS := { P := exFlagP, args := renderItems exItems }
+example : ItemsOK exS exItems :=
+  ⟨by decide, by decide,
+   by intro it h; simp [exItems, occsOf] at h; subst h; exact ⟨⟨by decide, by decide, by decide⟩, ⟨0,0,0⟩, by decide, fun _ => by decide⟩,
+   by intro w h; simp [exItems, wordsOf] at h; rcases h with h | h <;> (subst h; exact ⟨by decide, by decide⟩)⟩
+example : (applyItems default (fun _ => []) exS exItems).2 = none := by decide
+example : (applyItems default (fun _ => []) exS exItems).1.retargs = [B "a", B "b"] := by decide
 end GoFlags.C03
